@@ -37,7 +37,7 @@ Fd(gw, gh) == LET bpr == (gw + 7) \div 8 IN [i \in 1..(256 * gh * bpr) |-> (i * 
 MCFonts == << [gw |-> 2, gh |-> 2, bpr |-> 1, fd |-> Fd(2, 2)], [gw |-> 3, gh |-> 1, bpr |-> 1, fd |-> Fd(3, 1)] >>
 
 MCPalOps == {<<0, <<200, 0, 0, 0>> >>, <<1, <<0, 0, 128, 0>> >>, <<1, <<0, 255, 0, 0>> >>, <<7, <<0, 0, 128, 0>> >>,
-             <<255, <<10, 200, 30, 0>> >>, <<1, <<0, 0, 128, 255>> >>, <<16, <<9, 9, 9, 0>> >>, <<15, <<255, 255, 251, 0>> >>}
+             <<255, <<10, 200, 30, 0>> >>, <<1, <<0, 0, 128, 255>> >>, <<16, <<9, 9, 9, 0>> >>, <<15, <<255, 255, 251, 0>> >>, <<6, <<170, 85, 0, 0>> >>}
 MCPalOpsFew == {<<0, <<200, 0, 0, 0>> >>, <<1, <<0, 0, 128, 0>> >>, <<1, <<0, 255, 0, 0>> >>, <<7, <<0, 0, 128, 0>> >>, <<16, <<9, 9, 9, 0>> >>, <<15, <<255, 255, 251, 0>> >>}
 MCWrites == {<<1, 7, 0, 1, 1>>, <<255, 1, 2, 2, 1>>}
 AllDevs == {"FontPriorityGate", "LogoIgnoresFit"}
